@@ -202,6 +202,12 @@ def plain_job(job):
     import oqupy
     seed, t0 = job[0], job[1]
     subdiv = job[2] if len(job) > 2 else "default"           # "none": the Liouvillian is sampled, not integrated
+    # field equation: "moving" (never stationary), "zero" (the field never moves: its derivative is exactly 0 at every
+    # step), "rest" (proportional to a field that starts at 0)
+    eom_kind = job[3] if len(job) > 3 else "moving"
+    eom = {"moving": lambda t, st, a: -0.5j * a + 0.2 * t, "zero": lambda t, st, a: 0.0,
+           "rest": lambda t, st, a: -0.5j * a}[eom_kind]
+    a0 = 0.0 if eom_kind == "rest" else 0.3 - 0.1j
     dt, n = 0.125, 4
     sx = np.array([[0, 1], [1, 0]], dtype=complex)
     sz = np.diag([1.0 + 0j, -1.0])
@@ -222,10 +228,10 @@ def plain_job(job):
 
         def mk():
             fs = oqupy.TimeDependentSystemWithField(lambda t, a: ham(t), gammas=[gam], lindblad_operators=[lop])
-            return oqupy.MeanFieldSystem([fs], field_eom=lambda t, st, a: -0.5j * a + 0.2 * t)
-        a = oqupy.MeanFieldTempo(mk(), [bath], params, [rho.copy()], 0.3 - 0.1j, t0).compute(end, progress_type="silent")
+            return oqupy.MeanFieldSystem([fs], field_eom=eom)
+        a = oqupy.MeanFieldTempo(mk(), [bath], params, [rho.copy()], a0, t0).compute(end, progress_type="silent")
         pt = oqupy.PtTempo(bath, t0, end, params).get_process_tensor(progress_type="silent")
-        b = oqupy.compute_dynamics_with_field(mk(), 0.3 - 0.1j, process_tensor_list=[pt], initial_state_list=[rho.copy()],
+        b = oqupy.compute_dynamics_with_field(mk(), a0, process_tensor_list=[pt], initial_state_list=[rho.copy()],
                                               start_time=t0, progress_type="silent", **pkw)
     except Exception as ex:  # pylint: disable=broad-except
         return [{"what": "exception", "detail": "%s: %s" % (type(ex).__name__, str(ex)[:150])}]
@@ -299,8 +305,10 @@ def run(ctx):
         for x in mm:
             ctx.violation("C09:agreement:%s" % x["what"], "%s: %s" % (j, x), {"agreement": list(j)})
     pjobs = [(ctx.seed, t0) for t0 in (0.0, 1.0, -0.75)] + [(ctx.seed, t0, "none") for t0 in (0.0, 0.5)]
+    pjobs += [(ctx.seed, t0, sd, k) for t0 in (0.0, 0.5) for sd in ("default", "none") for k in ("zero", "rest")]
     for j, mm in zip(pjobs, core.pmap(plain_job, pjobs)):
-        ctx.case({"field_independent_vs_tempo": {"t0": j[1], "subdiv_limit": "None" if len(j) > 2 else "default"}}, nontrivial=True)
+        ctx.case({"field_independent_vs_tempo": {"t0": j[1], "subdiv_limit": "None" if len(j) > 2 and j[2] == "none" else "default",
+                                                 "field_equation": j[3] if len(j) > 3 else "moving"}}, nontrivial=True)
         for x in mm:
             ctx.violation("C09:plain:%s" % x["what"], "%s: %s" % (j, x), {"plain": list(j)})
     sjobs = [(t0, dt, g) for t0 in (0.0, 0.3, -0.7) for dt in (0.1, 0.2, 0.05) for g in (1, 2, 3)]
